@@ -357,7 +357,7 @@ impl Family for XInit {
             0 => r.pick(&[1u128, 4295048015, 4295048016, 79226673515401279992447579055, 79226673515401279992447579056, u128::MAX]),
             _ => r.sqrt_price(),
         };
-        let order = r.pick(&[0u64, 0, 0, 0, 0, 0, 0, 0, 0, 0, 1, 2]);
+        let order = r.pick(&[0u64, 0, 0, 0, 0, 0, 0, 0, 0, 0, 1, 2, 3]);
         let fee = r.pick(&[0u64, 100, 3000, 10000, 59999, 60000, 60000, 60000, 60001, 65535]);
         let proto = r.pick(&[0u64, 300, 1300, 2499, 2500, 2500, 2500, 2501, 65535]);
         let ma = gen_mint(r, true, false);
@@ -382,6 +382,9 @@ impl XInit {
         let fee: u16 = t[5].parse().unwrap();
         let proto: u16 = t[6].parse().unwrap();
         let pid = ::whirlpool::ID;
+        // order 3: canonical mint order, but the account offered as the pool is NOT at the pool's derived address
+        let wrong_pool = order == 3;
+        let order = if wrong_pool { 0 } else { order };
         let mut w0 = build_world(order, proto, parse_spec(&t, 7), parse_spec(&t, 12), 1_000_000);
         let tier = k(0xD1, 1);
         let ft = FeeTier { whirlpools_config: w0.cfg, tick_spacing: tier_ts, default_fee_rate: fee };
@@ -389,7 +392,7 @@ impl XInit {
         ft.try_serialize(&mut d).unwrap();
         d.resize(FeeTier::LEN, 0);
         w0.bank.set(tier, pid, 10_000_000, d);
-        let pool = Pubkey::find_program_address(&[b"whirlpool", w0.cfg.as_ref(), w0.mint_a.as_ref(), w0.mint_b.as_ref(), &ts.to_le_bytes()], &pid).0;
+        let pool = if wrong_pool { k(0x99, 4) } else { Pubkey::find_program_address(&[b"whirlpool", w0.cfg.as_ref(), w0.mint_a.as_ref(), w0.mint_b.as_ref(), &ts.to_le_bytes()], &pid).0 };
         let acc = ::whirlpool::accounts::InitializePoolV2 {
             whirlpools_config: w0.cfg,
             token_mint_a: w0.mint_a,
@@ -410,11 +413,14 @@ impl XInit {
         let data = ::whirlpool::instruction::InitializePoolV2 { tick_spacing: ts, initial_sqrt_price: price }.data();
         let mut bank = w0.bank.clone();
         let (res, out) = bank.execute(&metas, &data);
-        let conds_ok = order == 0 && price >= 4295048016 && price <= 79226673515401279992447579055 && ts == tier_ts && fee <= 60000 && proto <= 2500;
+        let conds_ok = order == 0 && !wrong_pool && price >= 4295048016 && price <= 79226673515401279992447579055 && ts == tier_ts && fee <= 60000 && proto <= 2500;
         match res {
             Ok(()) => {
                 ctx.tag("ok");
                 ctx.nontrivial(line);
+                if wrong_pool {
+                    ctx.viol("C15 a pool was created at an address that is not the pool's address for its config, mints and spacing".to_string());
+                }
                 match judge_created(&w0, &bank, &pool, "initialize_pool_v2", ts, fee, proto, price, conds_ok, ctx) {
                     Some((f, p, pr, tk, nt)) => format!("ok {} {} {} {} {}", f, p, pr, tk, b(nt)),
                     None => "ok".to_string(),
@@ -483,7 +489,7 @@ impl Family for XInitAf {
             14 => now.saturating_sub(r.pick(&[31u64, 100_000])).to_string(),
             _ => r.pick(&[0u64, u64::MAX]).to_string(),
         };
-        let auth = r.pick(&[0u8, 0, 0, 0, 0, 0, 0, 0, 0, 0, 1, 1, 2]);
+        let auth = r.pick(&[0u8, 0, 0, 0, 0, 0, 0, 0, 0, 0, 1, 1, 2, 3, 4]);
         // constants: mostly valid for this spacing, each rule broken now and then
         let divisors: Vec<u64> = (1..=ts.min(64)).filter(|d| ts % d == 0).collect();
         let gs = if ts == 32896 { r.pick(&[1u64, 2, 64, 257, 32896]) } else { r.pick(&divisors) };
@@ -558,8 +564,9 @@ impl XInitAf {
         aft.try_serialize(&mut d).unwrap();
         d.resize(AdaptiveFeeTier::LEN, 0);
         w0.bank.set(tier, pid, 10_000_000, d);
-        let pool = Pubkey::find_program_address(&[b"whirlpool", w0.cfg.as_ref(), w0.mint_a.as_ref(), w0.mint_b.as_ref(), &fee_tier_index.to_le_bytes()], &pid).0;
-        let oracle = Pubkey::find_program_address(&[b"oracle", pool.as_ref()], &pid).0;
+        // authMode 3 / 4: the account offered as the pool / as the Oracle is NOT at its derived address
+        let pool = if auth_mode == 3 { k(0x99, 5) } else { Pubkey::find_program_address(&[b"whirlpool", w0.cfg.as_ref(), w0.mint_a.as_ref(), w0.mint_b.as_ref(), &fee_tier_index.to_le_bytes()], &pid).0 };
+        let oracle = if auth_mode == 4 { k(0x99, 6) } else { Pubkey::find_program_address(&[b"oracle", pool.as_ref()], &pid).0 };
         let signer_key = if auth_mode == 1 { stranger } else { tier_auth };
         let acc = ::whirlpool::accounts::InitializePoolWithAdaptiveFee {
             whirlpools_config: w0.cfg,
@@ -602,6 +609,9 @@ impl XInitAf {
                 if auth_mode == 2 || (perm && auth_mode == 1) {
                     ctx.viol(format!("C04 initialize_pool_with_adaptive_fee on a permissioned tier succeeded without the tier's authority signing (mode {})", auth_mode));
                 }
+                if auth_mode >= 3 {
+                    ctx.viol(format!("C15 initialize_pool_with_adaptive_fee created the {} at an address that is not its derived address", if auth_mode == 3 { "pool" } else { "Oracle" }));
+                }
                 if !te_ok {
                     ctx.viol(format!("C17/C14 a pool was created with trade-enable time {:?} at clock {} (permissioned tier: {})", te, now, perm));
                 }
@@ -639,7 +649,7 @@ impl XInitAf {
                 if std::env::var("WPH_LOGS").is_ok() {
                     eprintln!("xinitaf: {:?} {}\n{}", e, name, out.logs.join("\n"));
                 }
-                if conds_ok && te_ok && constants_valid(ts as u64, &c) && auth_mode != 2 && !(perm && auth_mode == 1) && would_be_admissible(&w0) {
+                if conds_ok && te_ok && constants_valid(ts as u64, &c) && auth_mode == 0 && would_be_admissible(&w0) {
                     ctx.tag("refused_although_admissible");
                 }
                 format!("err {}", name)
